@@ -105,4 +105,25 @@ theorem passed_preconditions_leave_no_trace (q : Req) (e : Ent) (now : Nat) (r :
         · exfalso; apply hs; rw [hr]; simp [classify, hm, tailBr, hp, Br.resp]
       · exfalso; apply hs; rw [hr]; simp [classify, hm, tailBr, hp, Br.resp]
 
+/-- Without a Range header there is never a partial answer: whatever the other headers say
+(If-Range included), the status is not 206, 416 or 413, and no Content-Range is sent. -/
+theorem no_range_no_partial (q : Req) (e : Ent) (now : Nat) (r : Resp)
+    (hr : q.range = none) (h : serve q e now = .ok r) :
+    r.status ∉ [206, 413, 416] ∧ r.header .contentRange = none := by
+  obtain ⟨rfl, _⟩ := serve_ok h
+  have hp : ∀ b : Bool, parseRange (if b = true then q.range else none) e.len = .ok .none := by
+    intro b; cases b <;> simp [hr] <;> rfl
+  unfold classify
+  by_cases hm : q.method = .other
+  · simp [hm, Br.resp, Resp.header]
+  · simp only [hm, if_false]
+    unfold tailBr
+    cases hpm : parseModifiedHdrs e.etag q.ifMatch q.ifNoneMatch q.ius q.ims e.mtime with
+    | error err => simp [Br.resp, Resp.header]
+    | ok p =>
+      obtain ⟨pf, nm⟩ := p
+      cases pf <;> cases nm <;>
+        simp [hp, Br.resp, simpleResp, Resp.header, List.lookup_append, lookup_common_cr,
+          lookup_ent_cr, lookup_cons_if]
+
 end HS
